@@ -118,7 +118,7 @@ Definition run_pipe (cases : list ((list N * str) * bool)) : list N :=
    kind 2: tag -> sanitize_module_name (ASCII tags: computed; non-ASCII: str.isidentifier verdict [py] from the harness)
    kind 3: component schema name -> sanitize_class_name
    guard bits: 1 F20b (no ASCII letter/digit -> empty name)  2 F20c (tag without ASCII letter/digit)
-               3 F20h (non-ASCII tag)  4 F20a (schema named None/True/False)  5 F20k (class name not idempotent) *)
+               3 F20h (non-ASCII tag)  4 F20a (schema named None/True/False)  5 F20k (the sanitised class name is changed again by IRSchema.__post_init__: Names.ir_name, w20's model) *)
 Definition no_u : N -> bool := fun _ => false.
 Definition id_u : N -> str := fun c => [c].
 Definition module_name_ascii (s : str) : str := module_name no_u id_u no_u no_u no_u s.
@@ -126,7 +126,7 @@ Definition name_pred (c : (N * str) * bool) : bool :=
   let '((k, t), py) := c in
   if k =? 1 then valid_name (method_name t)
   else if k =? 2 then (if forallb is_ascii t then valid_name (module_name_ascii t) else py)
-  else valid_name (class_name t) && str_eqb (class_name (class_name t)) (class_name t).
+  else valid_name (class_name t) && str_eqb (ir_name (class_name t)) (class_name t).
 (* bits 1, 2, 4 were the guards of F20b, F20c, F20a (fixed in /repo: the sanitisers no longer return an empty name or a
    keyword); they are kept as constant true so that the bit numbering of the remaining findings is stable *)
 Definition name_guards (c : (N * str) * bool) : list bool :=
@@ -135,6 +135,6 @@ Definition name_guards (c : (N * str) * bool) : list bool :=
    true;
    negb (k =? 2) || forallb is_ascii t;
    true;
-   negb (k =? 3) || str_eqb (class_name (class_name t)) (class_name t)].
+   negb (k =? 3) || str_eqb (ir_name (class_name t)) (class_name t)].
 Definition run_names (cases : list (((N * str) * bool) * bool)) : list N :=
   report Bool.eqb name_pred name_guards cases.
